@@ -20,17 +20,15 @@ import (
 )
 
 // ammoGuard: "" = run in process, "child" = run under RLIMIT_AS in a child.
-// A line whose first field is an integer above inProcCap could make the decoder allocate that much.
+// A decoder that allocates from an announced size could be asked for any number that appears in the file - a size line
+// need not start at a line start of the file (the body before it may end anywhere) - so every file with a run of 8 or
+// more digits goes to the child.
 func ammoGuard(format string, data []byte) string {
 	if format != "uripost" && format != "raw" {
 		return ""
 	}
-	for _, line := range strings.Split(string(data), "\n") {
-		line = strings.TrimSpace(line)
-		first, _, _ := strings.Cut(line, " ")
-		if n, err := strconv.Atoi(first); err == nil && n > inProcCap {
-			return "child"
-		}
+	if hasLongDigitRun(string(data), 7) {
+		return "child"
 	}
 	return ""
 }
